@@ -14,9 +14,27 @@ import sys
 rnd = int(sys.argv[1])
 VERIF = os.path.dirname(os.path.dirname(os.path.abspath(__file__)))
 props = [json.loads(l) for l in open(os.path.join(VERIF, "properties.jsonl")) if l.strip()]
-words = {16: "sixteen", 2: "two", 4: "four", 6: "six", 8: "eight", 10: "ten", 12: "twelve", 14: "fourteen"}
+words = {18: "eighteen", 16: "sixteen", 2: "two", 4: "four", 6: "six", 8: "eight", 10: "ten", 12: "twelve", 14: "fourteen"}
 
 STEER = {
+    10: ("Read the code the property is anchored in AND the code it relies on elsewhere in the repository and in its dependencies, and look for places the list above has not touched. "
+         "This round, prefer changes of these kinds: (a) a PARTIAL regression of a defence the code already has: look at `git log` for the commits whose message starts with 'fix:' "
+         "(and at the checks around them) and weaken one of them for a sub-case only - a neighbouring field, a second code path that needs the same check, one of two entry points, "
+         "one size, one encoding - so that the original reproducer of the fix still passes; (b) values the API RETURNS or KEEPS: results that alias the caller's input or an internal "
+         "table (so that what the caller does with a result afterwards changes a later call), results that differ between the first and a repeated call, error values whose identity "
+         "or wrapping callers rely on (errors.Is / errors.As against the exported error variables); (c) documented but unusual ways of calling: nil and typed-nil arguments, zero "
+         "values of the option structs, option structs copied by value between calls, one TimeSet or pool shared by several Options values, inputs modified by the caller after the "
+         "call returned; (d) numbers, dates and text at their edges: dates with fractional seconds, other time zones or leap seconds in the JSON documents, numbers with exponents "
+         "or leading zeros, byte order of a multi-byte field, signed versus unsigned comparisons, lengths that are multiples of a block size, Unicode look-alikes and case folding "
+         "in names and identifiers; (e) two generated dimensions that only matter TOGETHER: pick two things a test generator would vary independently (for example the certificate "
+         "kind and the CRL encoding, the module version and the component order, the input format and a policy field) and make the code wrong only for one combination of them; "
+         "(f) the order and the short-circuiting of checks: a check skipped when an earlier one logged a warning, an error overwritten by a later success, a loop that stops at the "
+         "first match where all must match. "
+         "A generated-input harness that already covers single-field mutations, boundary values, permutations, concurrency, 32-bit builds, time-shifted worlds, call histories on one "
+         "Options value (including the level-report API and failing calls of every stage), long histories over hundreds of distinct inputs, byte-level differential testing of the "
+         "parsers against reference readers, transient failures and races of devices / getters / the TSM, the process environment (certificate store, GODEBUG, TZ, log verbosity, "
+         "processor count), hand-crafted DER, look-alike certificates, trust bundles with several certificates, checksum collisions, inputs of megabytes made of very many parts "
+         "under time limits, and the check tool's flag / config grid should still be likely to miss the change."),
     9: ("Read the code the property is anchored in AND the code it relies on elsewhere in the repository and in its dependencies, and look for places the list above has not touched. "
         "This round, prefer changes of these kinds: (a) the public API AROUND the main entry points - exported helpers, option constructors and their defaults, URL builders, exported "
         "error values and error types that callers test with errors.Is / errors.As, exported variables and command-line flags of the packages that a caller may set between calls - "
